@@ -630,6 +630,7 @@ class Exec(object):
 
     def _scripted_http(self, rec, url, head, body):
         s = rec.new_http_recorder_session()
+        abandoned = False
         try:
             req = HTTPRequest(url)
             req.address = ('10.0.0.1', 80)
@@ -651,8 +652,12 @@ class Exec(object):
             for i in range(0, len(body), 4096):
                 s.response_data(body[i:i + 4096])
             s.end_response(resp)
+        except GeneratorExit:
+            abandoned = True       # the execution was given up half way (the generator is being disposed of): the
+            raise                  # session of a process that is no more is not closed
         finally:
-            s.close()
+            if not abandoned:
+                s.close()
 
     def do_ftp(self, rec, e, idx):
         url = 'ftp://f.test/file%d' % idx
